@@ -359,6 +359,9 @@ class FlatColumn:
         if dic.get("type") == OrsoTypes._MISSING_TYPE.value:
             # an untyped column is written as the value of _MISSING_TYPE, which is not a type name
             dic = {**dic, "type": OrsoTypes._MISSING_TYPE}
+        if dic.get("element_type") == OrsoTypes._MISSING_TYPE.value:
+            # so is an untyped element type
+            dic = {**dic, "element_type": OrsoTypes._MISSING_TYPE}
         return cls(**dic)
 
 
